@@ -237,8 +237,8 @@ B("C13", "span from group 2", B64, 'b64_node = Node(POWERSHELL_BYTES_TYPE, b64, 
 B("C13", "MIN_B64_CHARS = 5", B64, "MIN_B64_CHARS = 6", "MIN_B64_CHARS = 5", "R3-acceptance")
 B("C13", "% 4 -> % 2", B64, "if len(b64_string) % 4 != 0 or", "if len(b64_string) % 2 != 0 or", "R3-acceptance")
 B("C13", "BASE64_RE {5,} -> {4,}", B64, "\\r?\\n?){5,}[A-Za-z0-9+/]{2,}=?=?", "\\r?\\n?){4,}[A-Za-z0-9+/]{2,}=?=?", "R3-acceptance")
-B("C13", "HEX_RE loses the upper-case branch", HEXF, 'HEX_RE = rb"((?:[a-f0-9]{2}){10,}|(?:[A-F0-9]{2}){10,})"', 'HEX_RE = rb"((?:[a-f0-9]{2}){10,})"', "R3-acceptance")
-B("C13", "HEX_RE admits odd lengths", HEXF, 'HEX_RE = rb"((?:[a-f0-9]{2}){10,}|(?:[A-F0-9]{2}){10,})"', 'HEX_RE = rb"([a-f0-9]{20,}|(?:[A-F0-9]{2}){10,})"', "R")
+B("C13", "HEX_RE loses the upper-case branch", HEXF, 'HEX_RE = rb"((?=[0-9]*[a-f])(?:[a-f0-9]{2}){10,}|(?:[A-F0-9]{2}){10,})"', 'HEX_RE = rb"((?:[a-f0-9]{2}){10,})"', "R3-acceptance")
+B("C13", "HEX_RE admits odd lengths", HEXF, 'HEX_RE = rb"((?=[0-9]*[a-f])(?:[a-f0-9]{2}){10,}|(?:[A-F0-9]{2}){10,})"', 'HEX_RE = rb"((?=[0-9]*[a-f])[a-f0-9]{20,}|(?:[A-F0-9]{2}){10,})"', "R")
 B("C13", "xor -> and", XH, "data = bytes(b ^ xorkey for b in data)", "data = bytes(b & xorkey for b in data)", "R4-xor")
 B("C13", "label from a different key", XH, '"cipher.xor" + str(xorkey),', '"cipher.xor" + str(xorkey & 0xFF),', "R4-xor")
 B("C13", "xor child span off by one", XH, "            end=len(data),\n", "            end=len(data) - 1,\n", "R4-xor")
@@ -253,7 +253,7 @@ B("C13", "HTML escapes not removed before the rules", B64, '            re.sub(H
 B("C13", "HTML_ESCAPE_RE loses the decimal form", B64, 'HTML_ESCAPE_RE = rb"&#(?:x[a-fA-F0-9]{1,4}|\\d{1,4});"', 'HTML_ESCAPE_RE = rb"&#(?:x[a-fA-F0-9]{1,4});"', "R")
 N("C13", "decoded text is the raw match minus escapes (a2b skips the breaks)", B64, "b64_result = binascii.a2b_base64(b64_string)", 'b64_result = binascii.a2b_base64(re.sub(HTML_ESCAPE_RE, b"", b64_match.group()))')
 N("C13", "threshold written as < 7", B64, "len(set(b64_string)) <= MIN_B64_CHARS", "len(set(b64_string)) < MIN_B64_CHARS + 1")
-N("C13", "regex equal-language rewrite", HEXF, 'HEX_RE = rb"((?:[a-f0-9]{2}){10,}|(?:[A-F0-9]{2}){10,})"', 'HEX_RE = rb"((?:[0-9a-f][0-9a-f]){10,}|(?:[0-9A-F]{2}){10,})"')
+N("C13", "regex equal-language rewrite", HEXF, 'HEX_RE = rb"((?=[0-9]*[a-f])(?:[a-f0-9]{2}){10,}|(?:[A-F0-9]{2}){10,})"', 'HEX_RE = rb"((?=[0-9]*[a-f])(?:[0-9a-f][0-9a-f]){10,}|(?:[0-9A-F]{2}){10,})"')
 N("C13", "xor operands swapped", XH, "data = bytes(b ^ xorkey for b in data)", "data = bytes(xorkey ^ b for b in data)")
 N("C13", "guards split", B64, "        if len(b64_string) % 4 != 0 or len(set(b64_string)) <= MIN_B64_CHARS:\n            continue\n", "        if len(b64_string) % 4 != 0:\n            continue\n        if len(set(b64_string)) <= MIN_B64_CHARS:\n            continue\n")
 
@@ -500,3 +500,7 @@ N("C01", "closing delimiter looked up in a constant table", SH, "               
 PEF2 = D + "pe_file.py"
 B("C11", "pe_size from the last section (seed s47)", PEF2, "        return max((section.PointerToRawData + section.SizeOfRawData for section in pe.sections), default=0)", "        if not pe.sections:\n            return 0\n        last_section = pe.sections[-1]\n        return last_section.PointerToRawData + last_section.SizeOfRawData", "R7-pe-extent")
 N("C11", "pe_size as an accumulating loop", PEF2, "        return max((section.PointerToRawData + section.SizeOfRawData for section in pe.sections), default=0)", "        size = 0\n        for section in pe.sections:\n            size = max(size, section.PointerToRawData + section.SizeOfRawData)\n        return size")
+HEX_NEW = 'HEX_RE = rb"((?=[0-9]*[a-f])(?:[a-f0-9]{2}){10,}|(?:[A-F0-9]{2}){10,})"'
+B("C13", "lower-case alternative tried first without the letter test (D30)", HEXF, HEX_NEW, 'HEX_RE = rb"((?:[a-f0-9]{2}){10,}|(?:[A-F0-9]{2}){10,})"', "R3-acceptance")
+B("C13", "hex alternatives swapped (round-7 seed)", HEXF, HEX_NEW, 'HEX_RE = rb"((?:[A-F0-9]{2}){10,}|(?:[a-f0-9]{2}){10,})"', "R3-acceptance")
+N("C13", "upper-case alternative guarded symmetrically", HEXF, HEX_NEW, 'HEX_RE = rb"((?=[0-9]*[a-f])(?:[a-f0-9]{2}){10,}|(?=[0-9]*(?:[A-F]|[^0-9a-f]|$))(?:[A-F0-9]{2}){10,})"')
